@@ -7,6 +7,7 @@ import (
 	"fmt"
 	"math"
 	"os"
+	"os/exec"
 	"path/filepath"
 	"reflect"
 	"strings"
@@ -1082,5 +1083,48 @@ func backoffs(r *ev.Run) {
 			r.Count("delays computed from eight goroutines at once, all within bounds", 16*n)
 			r.Nontrivial("backoff-concurrent")
 		}
+		// the same under the race detector: a corrupted shared generator shows up above only when two
+		// goroutines hit the same few instructions together, an unsynchronised access shows up here always
+		if bin := os.Getenv("VERIF_C17_RACEBIN"); bin != "" {
+			r.Eval(1)
+			dir, err := os.MkdirTemp("", "c17race")
+			if err != nil {
+				r.Inconclusive("no scratch directory for the race-instrumented part of backoff-concurrent: " + err.Error())
+			} else {
+				defer os.RemoveAll(dir)
+				ctx, cancel := context.WithTimeout(context.Background(), 10*time.Minute)
+				cmd := exec.CommandContext(ctx, bin, fmt.Sprint(r.Pick(20000, 200000)))
+				cmd.Env = append(os.Environ(), "GORACE=halt_on_error=0 log_path="+filepath.Join(dir, "race"))
+				out, err := cmd.CombinedOutput()
+				timedOut := ctx.Err() == context.DeadlineExceeded
+				cancel()
+				sigs, blocks := ev.RaceReports(dir)
+				r.Extra("backoff_race_part", map[string]any{"output": strings.TrimSpace(string(out)), "race_report_blocks": blocks, "race_signatures_in_repository_code": sigs})
+				switch {
+				case len(sigs) > 0:
+					for _, sg := range sigs {
+						r.Violation(c, "race:"+sg, "Backoff called from eight goroutines at once (race-instrumented build):\n"+ev.RaceText(dir, sg), nil)
+					}
+				case timedOut:
+					r.Inconclusive("the race-instrumented part of backoff-concurrent did not end within ten minutes")
+				case err != nil && !strings.Contains(string(out), "calls="):
+					r.Violation(c, "panic:Backoff:concurrent-use:race-build", fmt.Sprintf("the race-instrumented part died: %v\n%s", err, tailOf(string(out))), nil)
+				case strings.Contains(string(out), "panics=0") && strings.Contains(string(out), "out_of_bounds=0"):
+					r.Count("race-instrumented runs of the shared delay function without a report", 1)
+					r.Nontrivial("backoff-concurrent:race-detector")
+				default:
+					r.Violation(c, "backoff-out-of-bounds:concurrent-use:race-build", "the race-instrumented part reports: "+tailOf(string(out)), nil)
+				}
+			}
+		} else {
+			r.Extra("backoff_race_part", "not run: VERIF_C17_RACEBIN is not set (bin/check sets it)")
+		}
 	}
+}
+
+func tailOf(s string) string {
+	if len(s) > 3000 {
+		return "…" + s[len(s)-3000:]
+	}
+	return s
 }
